@@ -16,6 +16,19 @@ CLAIMED = {
              "kern_drv correspondence harness, clang/ASan/UBSan build of /repo. Hypothesis: T*2^(N-1) < 2^32.",
         technique="Lean 4 proof (induction over poll sequences) + differential correspondence of model vs real timer.c",
         design="5/C19"),
+    "C15": dict(
+        text="Lean 4 theorems about the priority formulas REGENERATED from candidate.c's typed AST on every run: candidate "
+             "priority = 2^24*type + 2^8*local + (256-component) without wrap for the documented ranges; every type preference "
+             "the code can produce is <= 126 and local preferences pack without overlap; type rank host > prflx > srflx > relay "
+             "dominates all other terms; pair priority = 2^32*min + 2*max + (G>D) for all 32-bit pairs (one pair whose value "
+             "exceeds 64 bits excluded and exhibited); role symmetry; the check list stays in descending order under every "
+             "history of insertions and role switches. A source change to a formula or constant changes the generated Lean "
+             "definitions and breaks the proof at lake build; hand-modelled switches and list operations are tied by a "
+             "differential run against the real functions; the RFC formulas are also evaluated directly on the C outputs.",
+        note="Trusted: Lean kernel, tools/extract.py C-subset semantics (also differential-tested), kern_drv harness, "
+             "scripted nice_interfaces_get_local_ips. In-agent list order at role switch / renomination is tied by simulation only.",
+        technique="Lean 4 proof over source-regenerated definitions (translator) + differential correspondence",
+        design="5/C15"),
 }
 
 NA_REASON = "not yet decided by the framework at this commit (model/theorems under construction); not claimed"
